@@ -151,4 +151,51 @@ theorem C07_kernel_file_asserts (urlOk : Bytes → Bool) (md : PyVal) (i : Nat) 
         | error e4 => simp [h1, h2, h3, h4, bind, Except.bind] at h ⊢; exact h
         | ok u4 => simp [h1, h2, h3, h4, bind, Except.bind, pure, Except.pure] at h
 
+/-- a key of a generated key path inside the nested loops: `"#i"` / `"#j"` are the loop indices -/
+def keyOf2 (i j : Nat) (k : String) : Key := if k = "#i" then .i i else if k = "#j" then .i j else .s k
+
+/-- one generated row as the `assertType` call it stands for -/
+def rowCall (urlOk : Bytes → Bool) (md : PyVal) (i j : Nat) (e : AssertRow) : Except ErrKind Unit :=
+  assertType md (e.1.map (keyOf2 i j)) (ruleOf urlOk e)
+
+/-- the three rules inside the loops of `validate()` — a tier of `announce-list`, a URL of a tier, a component of a
+    file's `path` — are the `assertType` calls the model makes there (`checkTier`, `checkFile`) -/
+theorem C07_kernel_loop_rules (urlOk : Bytes → Bool) (md : PyVal) (i j : Nat) :
+    validateTierAsserts.map (rowCall urlOk md i j) =
+      [assertType md [.s "announce-list", .i i] { types := PyVal.isIterable }] ∧
+    validateTierUrlAsserts.map (rowCall urlOk md i j) =
+      [assertType md [.s "announce-list", .i i, .i j] { types := PyVal.isStr, check := some (isUrl urlOk) }] ∧
+    validatePathCompAsserts.map (rowCall urlOk md i j) =
+      [assertType md [.s "info", .s "files", .i i, .s "path", .i j] { types := isStrOrBytes }] := by
+  unfold validateTierAsserts validateTierUrlAsserts validatePathCompAsserts
+  simp only [List.map, rowCall, ruleOf, keyOf2, checkNamed, types_iter, types_str, types_strbytes]
+  simp
+
+/-- after the shared rules and the announce-list loops: which arm of the source's `if / elif` chain `validate()` takes
+    (pieces empty / ragged / both kinds ⇒ MetainfoError; single-file branch; multi-file branch; neither ⇒ MetainfoError)
+    is the arm the model takes -/
+theorem C07_kernel_branch (urlOk : Bytes → Bool) (fs : FsOracle) (md0 : Items) (info : PyVal) (pieces : PyVal)
+    (plen : Nat) (hl hf : Bool)
+    (h1 : getE (.dict (ensureInfo md0)) (.s "info") = .ok info)
+    (h2 : checkCommon urlOk (.dict (ensureInfo md0)) = .ok ())
+    (h3 : checkAnnounceList urlOk (.dict (ensureInfo md0)) (ensureInfo md0) = .ok ())
+    (h4 : getE info (.s "pieces") = .ok pieces) (h4' : lenE pieces = .ok plen)
+    (h5 : inE (.s "length") info = .ok hl) (h6 : inE (.s "files") info = .ok hf) :
+    validate urlOk fs md0 =
+      (if validateBranch plen hl hf = 3 then checkSingle fs (.dict (ensureInfo md0)) info plen
+       else if validateBranch plen hl hf = 4 then checkMulti fs (.dict (ensureInfo md0)) info plen
+       else .error .metainfo) := by
+  unfold validate validateBranch
+  simp only [h1, h2, h3, h4, h4', h5, h6, bind, Except.bind]
+  by_cases hz : plen = 0
+  · subst hz; simp
+    rfl
+  · have hz' : ¬ ((plen : Int) = 0) := by omega
+    by_cases hr : plen % 20 = 0
+    · have hr' : ((plen : Int) % 20) = 0 := by omega
+      cases hl <;> cases hf <;> simp [hz, hz', hr, hr'] <;> rfl
+    · have hr' : ¬ (((plen : Int) % 20) = 0) := by omega
+      simp [hz, hz', hr, hr']
+      rfl
+
 end Torf.C07
